@@ -2,6 +2,7 @@ package main
 
 import (
 	"context"
+	"encoding/json"
 	"fmt"
 	"os"
 	"path/filepath"
@@ -437,10 +438,24 @@ type c11Hook struct {
 	file   string
 	kubes  []c11Kube
 	scheds []c11Sched
+	v0     bool // legacy configuration format: {"schedule":[{"name","crontab","allowFailure"}]}, no configVersion
 }
 
 func (h c11Hook) yaml() string {
 	var b strings.Builder
+	if h.v0 {
+		type sch struct {
+			Name         string `json:"name,omitempty"`
+			Crontab      string `json:"crontab"`
+			AllowFailure bool   `json:"allowFailure,omitempty"`
+		}
+		var l []sch
+		for _, s := range h.scheds {
+			l = append(l, sch{s.name, s.crontab, s.allowFailure})
+		}
+		out, _ := json.Marshal(map[string]interface{}{"schedule": l})
+		return string(out) + "\n"
+	}
 	b.WriteString("configVersion: v1\n")
 	if len(h.kubes) > 0 {
 		b.WriteString("kubernetes:\n")
@@ -778,8 +793,11 @@ func c11GenHooks(rng *Rng, crontabs []string) []c11Hook {
 	groups := []string{"", "", "g1", "g2"}
 	var hooks []c11Hook
 	for i := 0; i < nh; i++ {
-		h := c11Hook{file: fmt.Sprintf("hook%d.sh", i+1)}
+		h := c11Hook{file: fmt.Sprintf("hook%d.sh", i+1), v0: rng.Chance(20)}
 		nk := rng.Intn(3)
+		if h.v0 {
+			nk = 0
+		}
 		for k := 0; k < nk; k++ {
 			h.kubes = append(h.kubes, c11Kube{name: fmt.Sprintf("kube%d", k+1), group: PickOne(rng, groups)})
 		}
@@ -797,6 +815,9 @@ func c11GenHooks(rng *Rng, crontabs []string) []c11Hook {
 					s.includes = append(s.includes, kb.name)
 				}
 			}
+			if h.v0 {
+				s.queue, s.group, s.includes = "", "", nil
+			}
 			h.scheds = append(h.scheds, s)
 		}
 		hooks = append(hooks, h)
@@ -805,7 +826,7 @@ func c11GenHooks(rng *Rng, crontabs []string) []c11Hook {
 }
 
 func runC11(r *Run) {
-	r.Rule = "crontabs: 3 pairwise distinct strings per case over 7 rare-date schedules; in 35% of the cases the ordinary single-space spellings, otherwise every crontab is respelled (runs of blanks/tabs between fields, leading/trailing blanks incl. newline, 5- or 6-field form, month/weekday names in any case, leading zeros, one-element ranges and lists, ? for *, descriptors @yearly/@annually/@every, TZ=Local prefix) and in half of those two crontabs are different spellings of ONE schedule; every spelling is calibrated against the real config check (accepted, same parsed schedule). part A: random histories (<= 30 ops) of scheduleManager.Add/Remove over 3 crontabs x 4 ids on a real manager (started or not; in 35% of the cases one crontab is a spec the cron library rejects), repeats and unknown pairs included; after every op every live cron registration's job is run and the crontab STRING it sends is read back. part B: 1-4 generated hooks with 0-3 schedule bindings each over the 3 crontabs, sharing crontabs, queues and groups, loaded by the real hook manager (--config); histories (<= 30 ops) of EnableScheduleBindings (the task from the main queue through taskHandler) / DisableScheduleBindings / direct schedule callback (one event) / injected firings of one crontab string / injected wall-clock instants (every registration of the schedule, whatever spelling registered it, fired back to back) through the started ManagerEventsHandler into the real queues. thorough adds every Add/Remove history of length <= 5 over 2 crontabs x 2 ids and every enable/disable history of length <= 4 over two hooks that share a crontab and a queue (a tick of each crontab after every op). A case is non-trivial when (A) it contains a repeated add, a removal of an unknown pair and a removal that empties a crontab, or (B) two bindings share a crontab and some tick produced >= 2 tasks; distinct = distinct op-line sequences."
+	r.Rule = "crontabs: 3 pairwise distinct strings per case over 7 rare-date schedules; in 35% of the cases the ordinary single-space spellings, otherwise every crontab is respelled (runs of blanks/tabs between fields, leading/trailing blanks incl. newline, 5- or 6-field form, month/weekday names in any case, leading zeros, one-element ranges and lists, ? for *, descriptors @yearly/@annually/@every, TZ=Local prefix) and in half of those two crontabs are different spellings of ONE schedule; every spelling is calibrated against the real config check (accepted, same parsed schedule). part A: random histories (<= 30 ops) of scheduleManager.Add/Remove over 3 crontabs x 4 ids on a real manager (started or not; in 35% of the cases one crontab is a spec the cron library rejects), repeats and unknown pairs included; after every op every live cron registration's job is run and the crontab STRING it sends is read back. part B: 1-4 generated hooks with 0-3 schedule bindings each over the 3 crontabs, sharing crontabs, queues and groups (20% of the hooks in the legacy v0 configuration format), loaded by the real hook manager (--config); histories (<= 30 ops) of EnableScheduleBindings (the task from the main queue through taskHandler) / DisableScheduleBindings / direct schedule callback (one event) / injected firings of one crontab string / injected wall-clock instants (every registration of the schedule, whatever spelling registered it, fired back to back) through the started ManagerEventsHandler into the real queues. thorough adds every Add/Remove history of length <= 5 over 2 crontabs x 2 ids and every enable/disable history of length <= 4 over two hooks that share a crontab and a queue (a tick of each crontab after every op). A case is non-trivial when (A) it contains a repeated add, a removal of an unknown pair and a removal that empties a crontab, or (B) two bindings share a crontab and some tick produced >= 2 tasks; distinct = distinct op-line sequences."
 	// corpus: the asymmetries of Add/Remove read off the code
 	r.One(0, func(c *Case, _ *Rng) {
 		c.Desc = "corpus: same id added twice then removed once; unknown pair; invalid crontab between valid ones"
@@ -983,6 +1004,11 @@ func runC11(r *Run) {
 		}
 		c.Nontrivial = shared && maxTasks >= 2
 		c.Note(fmt.Sprintf("B:hooks-with-schedules=%d", nh))
+		for _, h := range hooks {
+			if h.v0 {
+				c.Note("B:v0-config-hook")
+			}
+		}
 		if maxTasks >= 2 {
 			c.Note("B:tick-with>=2-tasks")
 		}
